@@ -135,17 +135,28 @@ class BuildError(Exception):
 
 
 def build_harness(release=False):
-    """Rebuild the harness against /repo's current working tree. Returns path to the binary."""
+    """Rebuild the harness against the repository's current working tree. Returns path to the binary.
+    With VERIF_REPO set (mutation trials on a scratch copy) a copy of the harness crate pointing there is used."""
+    import shutil
+    hdir, target = HARNESS, CARGO_TARGET
+    if REPO != "/repo":
+        hdir = os.path.join(BUILD, "harness_alt")
+        target = os.path.join(BUILD, "cargo_alt")
+        os.makedirs(os.path.join(hdir, "src"), exist_ok=True)
+        for fn in ("main.rs", "gen.rs"):
+            shutil.copy(os.path.join(HARNESS, "src", fn), os.path.join(hdir, "src", fn))
+        toml = open(os.path.join(HARNESS, "Cargo.toml")).read().replace('path = "/repo"', 'path = "%s"' % REPO)
+        open(os.path.join(hdir, "Cargo.toml"), "w").write(toml)
+        shutil.copy(os.path.join(HARNESS, "Cargo.lock"), os.path.join(hdir, "Cargo.lock"))
     lock_src = os.path.join(REPO, "Cargo.lock")
-    lock_dst = os.path.join(HARNESS, "Cargo.lock")
+    lock_dst = os.path.join(hdir, "Cargo.lock")
     if os.path.exists(lock_src) and not os.path.exists(lock_dst):
-        import shutil
         shutil.copy(lock_src, lock_dst)
     cmd = "cargo build --offline" + (" --release" if release else "")
-    rc, out = sh(cmd, cwd=HARNESS, timeout=1800)
+    rc, out = sh(cmd, cwd=hdir, timeout=1800, env={"CARGO_TARGET_DIR": target})
     if rc != 0:
         raise BuildError(out)
-    return os.path.join(CARGO_TARGET, "release" if release else "debug", "ta-verif-harness")
+    return os.path.join(target, "release" if release else "debug", "ta-verif-harness")
 
 
 def build_coq(targets=None):
